@@ -73,6 +73,14 @@ claim("C14",
       "or not yet under contract (see evidence).",
       "DESIGN.md §4 C14")
 
+claim("C17",
+      "Proof of the guard-before-insert obligations at the sites that open connections (accept and dial caps hold in the state in which a handshaker is created) and of the outstanding-request cap (result never exceeds MaxRequestsOut, whatever a peer advertises). Partial: token buckets, RAM reservations across goroutines and the address-queue containers are outside or not yet under contract (see evidence).",
+      "DESIGN.md §4 C17")
+
+claim("C18",
+      "Proof of the admission guards at every site that creates a handshaker (not connected, not banned, not blocked when the blocklist applies) and of the address filters in front of the candidate queue. Partial: the segment tree is recursive pointer code (not under contract); the candidate queue as a bounded priority set depends on an external btree.",
+      "DESIGN.md §4 C18")
+
 na("C10", "liveness/progress over unbounded schedules of several goroutines: a function contract cannot state fairness or progress measures (DESIGN.md §4 C10)")
 na("C20", "data races and lock-ups quantify over schedules; the contracts are sequential and assume the single-owner discipline C20 asks to prove (DESIGN.md §4 C20)")
 for p in ["C01", "C02", "C04", "C05", "C06", "C07", "C08", "C09", "C11", "C12", "C13", "C14", "C15", "C17", "C18", "C19"]:
